@@ -25,19 +25,33 @@ Notation abs := (abs V).
 Notation keys := (keys V).
 Notation kabs := (kabs V).
 Notation ires_ok := (ires_ok V vlen).
-
-(* the insert does not fall into class F_SEPDUP: it does not split an EMPTY leaf on the very key
-   that is the separator to the left of that leaf *)
-Definition norisk (h : nat) (t : tree) (lo : option key) (e : entry) : Prop :=
-  match route V h t (fst e), lower_sep V h t lo (fst e) with
-  | Some l, Some a => lempty V l && (lfree V l <? csize e + SLOT) && keqb a (fst e)
-  | _, _ => false
-  end = false.
+Notation sep_fits := (sep_fits).
 
 Lemma ifree_seps (a b : list kid) : map fst a = map fst b -> ifree V a = ifree V b.
 Proof.
   revert b. induction a as [|x a IH]; intros [|y b] H; cbn [map] in H; try discriminate; [reflexivity|].
   injection H as H1 H2. rewrite !ifree_cons, (IH b H2), H1. reflexivity.
+Qed.
+
+Lemma splice_seps_perm (kids : list kid) : forall r i L s R,
+  Permutation (map fst (fst (splice V kids r i L s R))) (s :: map fst kids).
+Proof.
+  induction kids as [|sc rest IH]; intros r i L s R.
+  - rewrite splice_nil. apply Permutation_refl.
+  - destruct i as [|j].
+    + rewrite splice_0. cbn [fst map]. apply Permutation_refl.
+    + rewrite splice_S. cbn [fst map]. eapply Permutation_trans; [apply perm_skip; apply IH | apply perm_swap].
+Qed.
+
+Lemma kid_size_le (kids : list kid) sc : 0 <= ifree V kids -> In sc kids -> klen (fst sc) + ISLOT <= ICAP.
+Proof.
+  intros Hf Hin. rewrite ifree_sizes in Hf.
+  assert (H : klen (fst sc) + ISLOT <= sumz (ksizes V kids)).
+  { clear Hf. induction kids as [|x r IH]; [destruct Hin|]. unfold ksizes in *. cbn [map]. rewrite sumz_cons.
+    assert (Hr : 0 <= sumz (map (fun sc0 : kid => klen (fst sc0) + ISLOT) r)).
+    { clear. induction r as [|y r IHr]; [cbn; lia|]. cbn [map]. rewrite sumz_cons. unfold klen, ISLOT in *. pose proof (Nat2Z.is_nonneg (length (fst y))). lia. }
+    destruct Hin as [<- | Hin]; [lia|]. specialize (IH Hin). unfold klen, ISLOT in *. pose proof (Nat2Z.is_nonneg (length (fst x))). lia. }
+  lia.
 Qed.
 
 Lemma node_ins_ok h' id (kids : list kid) r (e : entry) lo hi (res : ires) :
@@ -49,13 +63,14 @@ Lemma node_ins_ok h' id (kids : list kid) r (e : entry) lo hi (res : ires) :
      | IOk c np' => let '(k2, r2) := set_child V kids r (cidx V (fst e) kids) c in IOk (Node id k2 r2) np'
      | ISplit L s R np' => int_ins V id kids r (cidx V (fst e) kids) L s R np'
      | IDup n0 => IDup n0
+     | IFull n0 => IFull n0
      | IErr er0 => IErr er0
      end).
 Proof.
   intros Hfree HB Hres. set (i := cidx V (fst e) kids) in *.
   assert (Hi : (i <= length kids)%nat) by apply cidx_le.
   destruct (kabs_decomp V h' kids r i) as (X & HX1 & HX2).
-  destruct res as [c np' | L s R np' | np' | er]; cbn [BTreeLeafIns.ires_ok] in Hres |- *.
+  destruct res as [c np' | L s R np' | np' | np' | er]; cbn [BTreeLeafIns.ires_ok] in Hres |- *.
   - destruct Hres as [Hc Hp]. destruct (set_child V kids r i c) as [k2 r2] eqn:Esc. cbn [BTreeLeafIns.ires_ok].
     assert (E2 : k2 = fst (set_child V kids r i c)) by (rewrite Esc; reflexivity).
     assert (E3 : r2 = snd (set_child V kids r i c)) by (rewrite Esc; reflexivity).
@@ -66,7 +81,7 @@ Proof.
     + rewrite !abs_node, E2, E3. eapply Permutation_trans; [apply HX2|].
       eapply Permutation_trans; [apply Permutation_app_tail; exact Hp|]. cbn [app]. apply perm_skip.
       apply Permutation_sym. exact HX1.
-  - destruct Hres as (HL & HR & Hlo & Hhi & Hp).
+  - destruct Hres as (HL & HR & Hlo & Hhi & Hsf & Hp).
     assert (Hsp : sep_pos (map fst kids) i s) by (eapply kids_sep_pos; eassumption).
     assert (Habs : Permutation (kabs h' (fst (splice V kids r i L s R)) (snd (splice V kids r i L s R))) (e :: kabs h' kids r)).
     { eapply Permutation_trans; [apply splice_abs|].
@@ -76,7 +91,7 @@ Proof.
     assert (HKB : kids_bounded V (bounded h') lo hi (fst (splice V kids r i L s R)) (snd (splice V kids r i L s R)))
       by (apply splice_bounded; assumption).
     destruct (Z.leb_spec (klen s + ISLOT) (ifree V kids)) as [Hroom | Hfull].
-    + destruct (int_ins_room V id kids r i L s R np' Hsp Hi Hroom) as [E | E]; rewrite E; cbn [BTreeLeafIns.ires_ok]; [exact I|].
+    + destruct (int_ins_room V id kids r i L s R np' Hsp Hi Hroom) as [E | E]; rewrite E; cbn [BTreeLeafIns.ires_ok]; [reflexivity|].
       split.
       * cbn [BTreeInv.bounded]. split; [rewrite splice_ifree; lia | exact HKB].
       * rewrite !abs_node. exact Habs.
@@ -85,14 +100,26 @@ Proof.
       assert (E2 : kids1 = fst (set_child V kids r i L)) by (rewrite Esc; reflexivity).
       assert (E3 : right1 = snd (set_child V kids r i L)) by (rewrite Esc; reflexivity).
       rewrite E2, E3, (split_interior_eq V id kids r i L s R np' Hsp Hi).
-      pose proof (si_body_ok V vlen h' id np' _ _ lo hi HKB) as Hsi.
-      destruct (si_body V id np' (fst (splice V kids r i L s R)) (snd (splice V kids r i L s R))) as [? ? | Lf prom Rg np2 | ? | er];
-        cbn [BTreeLeafIns.ires_ok]; try contradiction; [|exact I].
-      destruct Hsi as (H1 & H2 & H3 & H4 & H5). repeat split; try assumption.
-      rewrite H5, abs_node. exact Habs.
+      set (K := fst (splice V kids r i L s R)) in *. set (rr := snd (splice V kids r i L s R)) in *.
+      assert (HKne : K <> []).
+      { intros HK. pose proof (Permutation_length (splice_seps_perm kids r i L s R)) as PL. fold K in PL. rewrite HK in PL. discriminate. }
+      assert (HKtot : sumz (ksizes V K) <= 2 * ICAP).
+      { pose proof (splice_ifree V kids r i L s R) as Hi2. fold K in Hi2. rewrite !ifree_sizes in Hi2.
+        rewrite ifree_sizes in Hfree. unfold sep_fits in Hsf. fold ICAP in Hsf. lia. }
+      assert (HKfit : seps_fit V K).
+      { intros sc Hsc. assert (Hk : In (fst sc) (s :: map fst kids)).
+        { eapply Permutation_in; [apply splice_seps_perm | apply in_map; exact Hsc]. }
+        destruct Hk as [<- | Hk]; [exact Hsf|]. apply in_map_iff in Hk as (sc' & Heq & Hin'). rewrite <- Heq.
+        eapply kid_size_le; eassumption. }
+      pose proof (si_body_ok V vlen h' id np' K rr lo hi HKB HKne HKtot HKfit) as Hsi.
+      destruct (si_body V id np' K rr) as [? ? | Lf prom Rg np2 | ? | ? | er]; cbn [BTreeLeafIns.ires_ok]; try contradiction.
+      destruct Hsi as (H1 & H2 & H3 & H4 & H5 & H6). repeat split; try assumption.
+      rewrite H6, abs_node. exact Habs.
   - rewrite abs_node. unfold BTreeOrder.keys in *. apply in_map_iff in Hres as (x & Hx & Hin). apply in_map_iff. exists x. split; [exact Hx|].
     eapply Permutation_in; [apply Permutation_sym; exact HX1|]. apply in_or_app. left. exact Hin.
-  - exact I.
+  - destruct Hres as (c & Hc & Hbig). exists c. split; [|exact Hbig]. destruct Hc as [<- | Hc]; [left; reflexivity|]. right.
+    rewrite abs_node. eapply Permutation_in; [apply Permutation_sym; exact HX1|]. apply in_or_app. left. exact Hc.
+  - exact Hres.
 Qed.
 
 Lemma abs_child_incl h' id (kids : list kid) r i x : In x (abs h' (child_at V kids r i)) -> In x (abs (S h') (Node id kids r)).
@@ -102,20 +129,13 @@ Proof.
 Qed.
 
 Lemma ins_ok : forall h m rm (t : tree) (e : entry) np lo hi,
-  bounded h lo hi t -> lo_ok lo (fst e) -> hi_ok hi (fst e) ->
+  bounded h lo hi t -> lo_ok lo (fst e) -> hi_ok hi (fst e) -> cell_fits V vlen e ->
   (m = MAppend -> forall x, In x (abs h t) -> klt (fst x) (fst e)) ->
-  norisk h t lo e ->
   ires_ok h lo hi t e (ins V vlen h m rm t e np).
 Proof.
-  induction h as [|h' IH]; intros m rm t e np lo hi HB Hlo Hhi Happ Hrisk; destruct t as [l | id kids r]; cbn in HB; try contradiction.
+  induction h as [|h' IH]; intros m rm t e np lo hi HB Hlo Hhi Hfit Happ; destruct t as [l | id kids r]; cbn in HB; try contradiction.
   - cbn [ins]. apply leaf_ins_ok; try assumption.
-    + intros Hm x Hx. apply (Happ Hm). rewrite abs_leaf. exact Hx.
-    + intros Hemp Hfull. unfold norisk in Hrisk. cbn [route lower_sep] in Hrisk.
-      destruct lo as [a|]; [|exact I]. cbn.
-      assert (Hl : lempty V l = true) by (unfold lempty; rewrite Hemp; reflexivity).
-      assert (Hf : (lfree V l <? csize e + SLOT) = true) by (apply Z.ltb_lt; exact Hfull).
-      rewrite Hl, Hf in Hrisk. cbn [andb] in Hrisk. apply keqb_false in Hrisk.
-      destruct (k_trichotomy a (fst e)) as [H | [H | H]]; [exact H | contradiction | exfalso; exact (Hlo H)].
+    intros Hm x Hx. apply (Happ Hm). rewrite abs_leaf. exact Hx.
   - destruct HB as [Hfree HB]. cbn [ins].
     destruct (kids_child V _ kids lo hi r (fst e) HB Hlo Hhi) as (Hc & Hl & Hh).
     apply (node_ins_ok h' id kids r e lo hi (ins V vlen h' m (rm && (cidx V (fst e) kids =? length kids)%nat) (child_at V kids r (cidx V (fst e) kids)) e np)); try assumption.
